@@ -557,29 +557,58 @@ theorem implicit_parents (o : ConvOpts) (t t' : List TNode) (e : CEntry) (h : ad
               subst h
               exact ⟨n, List.mem_append_left _ hn, hnp, hnd⟩
 
-/-- **`--root-becomes` link retarget** (repaired rule): a link target is either left exactly as it is, or — when its
-    canonical form lies below the new root `r` — replaced by the part after `r` (which starts with '/') -/
+/-- **`--root-becomes` link retarget** (repaired rule), safety and liveness: (1) a link target is either left exactly as
+    it is, or — when its canonical form lies below the new root `r` — replaced by the part after `r` (which starts with
+    '/'); (2) *whenever* the canonical form is `r` followed by `/rest`, the target **is** replaced by `/rest` (a function
+    that never retargets does not satisfy this); (3) in every other case it is left untouched. -/
 theorem retarget_spec (r l : Bytes) :
-    retarget r l = l ∨ ∃ rest, Sqfs.Path.canonicalize l = some (r ++ Sqfs.Path.SL :: rest) ∧ retarget r l = Sqfs.Path.SL :: rest := by
-  unfold retarget
-  cases hc : Sqfs.Path.canonicalize l with
-  | none => exact Or.inl rfl
-  | some c =>
-    simp only
-    by_cases h : c.take r.length = r ∧ (c.drop r.length).head? = some Sqfs.Path.SL
-    · rw [if_pos h]
-      right
-      cases hd : c.drop r.length with
-      | nil => rw [hd] at h; simp at h
-      | cons x rest =>
-        rw [hd] at h
-        simp only [List.head?_cons, Option.some.injEq] at h
-        obtain ⟨h1, rfl⟩ := h
-        refine ⟨rest, ?_, rfl⟩
-        have := take_eq_split c r h1
-        rw [hd] at this
-        rw [this]
-    · rw [if_neg h]; exact Or.inl rfl
+    (retarget r l = l ∨ ∃ rest, Sqfs.Path.canonicalize l = some (r ++ Sqfs.Path.SL :: rest) ∧ retarget r l = Sqfs.Path.SL :: rest) ∧
+    (∀ rest, Sqfs.Path.canonicalize l = some (r ++ Sqfs.Path.SL :: rest) → retarget r l = Sqfs.Path.SL :: rest) ∧
+    ((∀ rest, Sqfs.Path.canonicalize l ≠ some (r ++ Sqfs.Path.SL :: rest)) → retarget r l = l) := by
+  have safety : retarget r l = l ∨
+      ∃ rest, Sqfs.Path.canonicalize l = some (r ++ Sqfs.Path.SL :: rest) ∧ retarget r l = Sqfs.Path.SL :: rest := by
+    unfold retarget
+    cases hc : Sqfs.Path.canonicalize l with
+    | none => exact Or.inl rfl
+    | some c =>
+      simp only
+      by_cases h : c.take r.length = r ∧ (c.drop r.length).head? = some Sqfs.Path.SL
+      · rw [if_pos h]
+        right
+        cases hd : c.drop r.length with
+        | nil => rw [hd] at h; simp at h
+        | cons x rest =>
+          rw [hd] at h
+          simp only [List.head?_cons, Option.some.injEq] at h
+          obtain ⟨h1, rfl⟩ := h
+          refine ⟨rest, ?_, rfl⟩
+          have := take_eq_split c r h1
+          rw [hd] at this
+          rw [this]
+      · rw [if_neg h]; exact Or.inl rfl
+  refine ⟨safety, ?_, ?_⟩
+  · intro rest hc
+    unfold retarget
+    rw [hc]
+    simp only [List.take_left', List.drop_left', List.head?_cons, and_self, if_true]
+  · intro hno
+    rcases safety with h | ⟨rest, hc, _⟩
+    · exact h
+    · exact absurd hc (hno rest)
+
+/-- instance of the liveness part: with `--root-becomes r` the hard-link target `r//y/./z` (canonical form `r/y/z`) becomes
+    `/y/z`; a target outside `r` stays byte for byte what it was -/
+example : retarget (ascii "r") (ascii "r//y/./z") = ascii "/y/z" ∧ retarget (ascii "r") (ascii "q//y") = ascii "q//y" :=
+  ⟨(retarget_spec (ascii "r") (ascii "r//y/./z")).2.1 (ascii "y/z") (by decide),
+   (retarget_spec (ascii "r") (ascii "q//y")).2.2 (by
+      intro rest h
+      have h2 : Sqfs.Path.canonicalize (ascii "q//y") = some (ascii "q/y") := by decide
+      rw [h2] at h
+      simp only [Option.some.injEq] at h
+      have h3 : (ascii "r" ++ Sqfs.Path.SL :: rest).head? = some 114 := rfl
+      have h4 : (ascii "q/y").head? = some 113 := by decide
+      rw [← h, h4] at h3
+      exact absurd h3 (by decide))⟩
 
 /-! ## fix-point -/
 
@@ -777,6 +806,19 @@ abbrev posixBlock : Bytes :=
 set_option maxRecDepth 1000000 in
 example : posixBlock.length = 512 ∧ isZeroBlock posixBlock = false ∧ checkVersion posixBlock = some .posix ∧
     isChecksumValid posixBlock = true ∧ (slice posixBlock 156 1).headD 0 = 48 := by decide
+
+set_option maxRecDepth 1000000 in
+/-- `checksum_roundtrip` applied to the POSIX block (512 bytes) -/
+example := checksum_roundtrip posixBlock (by decide)
+
+set_option maxRecDepth 1000000 in
+/-- `read_header_after_records` applied to the POSIX block with every hypothesis discharged: a preceding PAX record has set
+the name (`PAX_NAME`, "n"); fuel 3 + 1, two bytes follow the block -/
+example :=
+  have pb : posixBlock.length = 512 ∧ isZeroBlock posixBlock = false ∧ checkVersion posixBlock = some .posix ∧
+      isChecksumValid posixBlock = true ∧ (slice posixBlock 156 1).headD 0 = 48 := by decide
+  read_header_after_records {} 3 posixBlock [9, 9] false .posix PAX_NAME { name := some (ascii "n") } pb.1 pb.2.1 pb.2.2.1
+    pb.2.2.2.1 (by rw [pb.2.2.2.2]; decide) rfl (by decide)
 
 set_option maxRecDepth 1000000 in
 example : (specDecode posixBlock 0 {} .posix).map (fun d => (d.name, d.mode, d.uid, d.gid, d.recordSize, d.mtime)) =
